@@ -37,7 +37,7 @@ PAYLOAD_N = 7
 
 def units(tier: str) -> List[Any]:
     n = 4 if tier == "quick" else 5
-    us: List[Any] = [("tree", t) for t in F.trees_upto(n)]
+    us: List[Any] = [("tree", t) for t in F.trees_upto(n)] + [("tree", t) for t in F.par_skeletons(tier)]
     us += [("follow", spec) for spec in follow.specs(3 if tier == "quick" else 4)]
     return us
 
@@ -139,7 +139,9 @@ def check_step(byid, events, ev, conf_before, conf_after, seg, *, sent_type, str
         elif len(evs) > 1:
             bad.append(("event-identity(follow-up-inconsistent)", f"one transition, several events: {sorted(evs, key=repr)}"))
         # frame condition for universal transitions
-        if tr is not None and tr[1] in events and events[tr[1]].get("tgt"):
+        if tr is not None and tr[1] in events and events[tr[1]]["kind"] == "S":
+            pass  # shared events: one event, several transitions with their own sources/targets - no single frame
+        elif tr is not None and tr[1] in events and events[tr[1]].get("tgt"):
             e = events[tr[1]]
             top = lca(byid, e["src"], e["tgt"])
             t = byid[e["tgt"]]
@@ -192,7 +194,7 @@ def explore_generic(cfg, nodes, events, *, label, replay, engines=ENGINES, shape
             conf = set(d.observe()[0])
             if d.observe()[2] != "running":
                 return []
-            return [n for n, e in events.items() if e["src"] in conf and e["kind"] in ("T", "R", "N")]
+            return [n for n, e in events.items() if e["src"] in conf and e["kind"] in ("T", "R", "N", "S")]
 
         def send(d, ev):
             d.send(ev, n=PAYLOAD_N)
@@ -212,7 +214,7 @@ def explore_generic(cfg, nodes, events, *, label, replay, engines=ENGINES, shape
 def run_unit(unit):
     kind, payload = unit
     if kind == "tree":
-        cfg, nodes, events = F.universal_config(payload)
+        cfg, nodes, events = F.universal_config(payload, shared=True)
         return explore_generic(cfg, nodes, events, label=F.tree_str(payload), replay=dict(kind="tree", tree=payload))
     spec = payload
     cfg, nodes, events = follow.build(spec)
@@ -226,7 +228,7 @@ def replay(payload):
     from .c01 import _tuplify
 
     if payload["kind"] == "tree":
-        cfg, nodes, events = F.universal_config(_tuplify(payload["tree"]))
+        cfg, nodes, events = F.universal_config(_tuplify(payload["tree"]), shared=True)
         gi = None
     else:
         cfg, nodes, events = follow.build(_tuplify(payload["spec"]))
